@@ -2,7 +2,7 @@
   Lemmas for C19: every operation of the model (`step`) preserves the invariant `WF`, hence every reachable state is
   well formed.
 -/
-import CelloProofs.Lemmas.HdrBody
+import CelloProofs.Lemmas.HdrRelease
 
 namespace Cello.Hdr
 
@@ -31,48 +31,31 @@ theorem wf_destruct_dealloc {s : St} (h : WF cfg s) {id : Nat} {o : Obj} (hget :
   refine wf_dealloc h1 ?_ hlive hnreg
   rw [get_updBody, hget]; simp
 
-theorem wf_freeObj (F : Facts cfg) {s : St} (h : WF cfg s) {f : FreeOp} {id : Nat} {o : Obj} (hget : s.get id = some o)
-    (hlive : o.live = true) (hguard : f.viaCollector = false → s.isReg id = false) : WF cfg (freeObj cfg s f id o).1 := by
+/-- a freeing operation on a whole live object, no sweep being under way: the invariant is kept (whatever the destructor
+    of a Box deletes in turn) and no sweep is left under way -/
+theorem wf_freeObj (F : Facts cfg) {s : St} (h : WF cfg s) (hnp : NoPend s) {f : FreeOp} {id : Nat} {o : Obj}
+    (hget : s.get id = some o) (hlive : o.live = true) (hguard : f.viaCollector = false → s.isReg id = false) :
+    WF cfg (freeObj cfg s f id o).1 ∧ NoPend (freeObj cfg s f id o).1 := by
   have hbody : BodyOK cfg o.body := bodyOK_of_get h hget
   have hd : BodyOK cfg (destructBody cfg o.hdr o.body).1 := destructBody_ok hbody
+  have hpd : ∀ (s' : St) (o' : Obj), NoPend s' → NoPend (dealloc cfg s' id o').1 := by
+    intro s' o' hn a ha; rw [pending_dealloc] at ha; exact hn a ha
   cases f with
-  | dealloc => exact wf_dealloc h hget hlive (isReg_false (hguard rfl))
-  | deallocRaw => exact wf_dealloc h hget hlive (isReg_false (hguard rfl))
-  | deallocRoot => exact wf_dealloc h hget hlive (isReg_false (hguard rfl))
+  | dealloc => exact ⟨wf_dealloc h hget hlive (isReg_false (hguard rfl)), hpd s o hnp⟩
+  | deallocRaw => exact ⟨wf_dealloc h hget hlive (isReg_false (hguard rfl)), hpd s o hnp⟩
+  | deallocRoot => exact ⟨wf_dealloc h hget hlive (isReg_false (hguard rfl)), hpd s o hnp⟩
   | destruct =>
     simp only [freeObj]
-    exact wf_updBody h id _ (fun _ _ _ => hd)
+    exact ⟨wf_updBody h id _ (fun _ _ _ => hd), hnp⟩
   | delRaw =>
     simp only [freeObj]
-    cases hdb : destructBody cfg o.hdr o.body with
-    | mk b out =>
-      rw [hdb] at hd
-      cases out with
-      | ok => exact wf_destruct_dealloc h hget hlive (isReg_false (hguard rfl)) b hd
-      | raised e => exact h
-      | ub => exact h
+    exact finalise_top F h hnp hget hlive (isReg_false (hguard rfl)) _ (by simp only [fuelFor]; omega)
   | del =>
     simp only [freeObj, F.delViaCollector, if_true]
-    split
-    · cases hdb : destructBody cfg o.hdr o.body with
-      | mk b out =>
-        rw [hdb] at hd
-        cases out with
-        | ok => exact wf_destruct_dealloc (wf_unreg h id) hget hlive (not_reg_unreg s id) b hd
-        | raised e => exact wf_unreg h id
-        | ub => exact wf_unreg h id
-    · exact h
+    exact gcRem_top F h hnp id _ (by simp only [fuelFor]; omega)
   | delRoot =>
     simp only [freeObj, F.delViaCollector, if_true]
-    split
-    · cases hdb : destructBody cfg o.hdr o.body with
-      | mk b out =>
-        rw [hdb] at hd
-        cases out with
-        | ok => exact wf_destruct_dealloc (wf_unreg h id) hget hlive (not_reg_unreg s id) b hd
-        | raised e => exact wf_unreg h id
-        | ub => exact wf_unreg h id
-    · exact h
+    exact gcRem_top F h hnp id _ (by simp only [fuelFor]; omega)
 
 /-- the element a target designates sits in the body of the (only) entry with that handle -/
 theorem elemAt_of_elemOf {s : St} (h : WF cfg s) {t : Target} {e : Elem} (he : s.elemOf t = some e)
@@ -90,10 +73,11 @@ theorem wf_setElem {s : St} (h : WF cfg s) {t : Target} {e e1 : Elem} (he : s.el
     WF cfg (s.updBody t.id (fun b => b.setElemAt t e1)) :=
   wf_updBody h t.id _ (fun p hp hk => bodyOK_setElemAt (h.bodies p hp) (elemAt_of_elemOf h he hp hk) hh)
 
-theorem wf_stepFree (F : Facts cfg) {s : St} (h : WF cfg s) (f : FreeOp) (t : Target) : WF cfg (stepFree cfg s f t).1 := by
+theorem wf_stepFree (F : Facts cfg) {s : St} (h : WF cfg s) (hnp : NoPend s) (f : FreeOp) (t : Target) :
+    WF cfg (stepFree cfg s f t).1 ∧ NoPend (stepFree cfg s f t).1 := by
   unfold stepFree
   split
-  · exact h
+  · exact ⟨h, hnp⟩
   · rename_i o hget
     cases t with
     | obj id =>
@@ -101,29 +85,26 @@ theorem wf_stepFree (F : Facts cfg) {s : St} (h : WF cfg s) (f : FreeOp) (t : Ta
       simp only
       repeat' split
       all_goals first
-        | exact h
-        | (rename_i hl hm _ _ _
-           apply wf_freeObj F h hget
-           · simpa using hl
-           · intro hv; simp only [hv, Bool.not_false, Bool.true_and] at hm; simpa using hm)
+        | exact ⟨h, hnp⟩
+        | (refine wf_freeObj F h hnp hget ?_ ?_ <;> simp_all)
     | elem id i =>
       simp only
       repeat' split
       all_goals first
-        | exact h
-        | (rename_i he; exact wf_setElem h he (freeElem_hdr _ _))
+        | exact ⟨h, hnp⟩
+        | (rename_i he; exact ⟨wf_setElem h he (freeElem_hdr _ _), hnp⟩)
     | key id i =>
       simp only
       repeat' split
       all_goals first
-        | exact h
-        | (rename_i he; exact wf_setElem h he (freeElem_hdr _ _))
+        | exact ⟨h, hnp⟩
+        | (rename_i he; exact ⟨wf_setElem h he (freeElem_hdr _ _), hnp⟩)
     | val id i =>
       simp only
       repeat' split
       all_goals first
-        | exact h
-        | (rename_i he; exact wf_setElem h he (freeElem_hdr _ _))
+        | exact ⟨h, hnp⟩
+        | (rename_i he; exact ⟨wf_setElem h he (freeElem_hdr _ _), hnp⟩)
 
 theorem wf_stepInplace (F : Facts cfg) {s : St} (h : WF cfg s) (ip : InPlace) (t : Target) :
     WF cfg (stepInplace cfg s ip t).1 := by
@@ -235,50 +216,82 @@ theorem wf_stepCopy (F : Facts cfg) {s : St} (h : WF cfg s) (id src : Nat) : WF 
          exact wf_birth h id .new _ _ hnone (copyBody_ok F hcp)
            (fun root hr => birth_alloc_heap F s _ (registers_isHeap F hr)))
 
-theorem wf_sweepOne {s : St} (h : WF cfg s) (id : Nat) : WF cfg (sweepOne cfg s id) := by
-  unfold sweepOne
-  split
-  · exact h
-  · rename_i hr
-    have hreg : s.isReg id = true := by simpa using hr
-    obtain ⟨p, hp, hpid⟩ := isReg_true hreg
-    obtain ⟨o, hget, _, hlive⟩ := h.reg p hp
-    rw [hpid] at hget
-    rw [hget]
-    simp only
-    have hd : BodyOK cfg (destructBody cfg o.hdr o.body).1 := destructBody_ok (bodyOK_of_get h hget)
-    cases hdb : destructBody cfg o.hdr o.body with
-    | mk b out =>
-      rw [hdb] at hd
-      cases out with
-      | ok => exact wf_destruct_dealloc (wf_unreg h id) hget hlive (not_reg_unreg s id) b hd
-      | raised e => exact wf_unreg h id
-      | ub => exact wf_unreg h id
+theorem mem_sweepVictims {s : St} {victims : List Nat} {v : Nat} (h : v ∈ s.sweepVictims victims) : ∃ p ∈ s.reg, p.1 = v := by
+  simp only [St.sweepVictims, List.mem_map, List.mem_filter] at h
+  obtain ⟨p, ⟨hp, _⟩, e⟩ := h
+  exact ⟨p, hp, e⟩
 
-theorem wf_foldl_sweepOne (l : List Nat) : ∀ {s : St}, WF cfg s → WF cfg (l.foldl (sweepOne cfg) s) := by
-  induction l with
-  | nil => intro s h; exact h
-  | cons x r ih => intro s h; exact ih (wf_sweepOne h x)
+theorem mem_exitVictims {s : St} {v : Nat} (h : v ∈ s.exitVictims) : ∃ p ∈ s.reg, p.1 = v := by
+  simp only [St.exitVictims, List.mem_map, List.mem_filter] at h
+  obtain ⟨p, ⟨hp, _⟩, e⟩ := h
+  exact ⟨p, hp, e⟩
 
-/-- **every operation preserves the invariant** -/
-theorem wf_step (F : Facts cfg) {s : St} (h : WF cfg s) (op : Op) : WF cfg (step cfg s op).1 := by
+/-- the victims of a collection are registered objects -/
+theorem victims_registered {s : St} {victims order : List Nat} {v : Nat}
+    (hv : v ∈ arrange order (s.sweepVictims victims)) : ∃ p ∈ s.reg, p.1 = v :=
+  mem_sweepVictims ((mem_arrange order _ v).mp hv)
+
+/-- what the proofs below need about the release log of a collection -/
+theorem drop_freed_of_ext {s s' : St} {E : List Nat} (h : s'.freed = s.freed ++ E) : s'.freed.drop s.freed.length = E := by
+  rw [h]; simp
+
+theorem wf_sweep (F : Facts cfg) {s : St} (h : WF cfg s) (victims order : List Nat) :
+    WF cfg (s.sweep cfg victims order).1 ∧ NoPend (s.sweep cfg victims order).1 := by
+  have hs := collect_spec F s (arrange order (s.sweepVictims victims)) h
+    (fun v hv => mem_sweepVictims ((mem_arrange order _ v).mp hv))
+  exact ⟨hs.2.1, hs.2.2.1⟩
+
+theorem wf_updBody_box {s : St} (h : WF cfg s) (id : Nat) (v : Option Nat) : WF cfg (s.updBody id (fun _ => Body.box v)) :=
+  wf_updBody h id _ (fun _ _ _ => trivial)
+
+theorem wf_stepOwn {s : St} (h : WF cfg s) (hnp : NoPend s) (id : Nat) (target : Option Nat) :
+    WF cfg (stepOwn s id target).1 ∧ NoPend (stepOwn s id target).1 := by
+  unfold stepOwn
+  repeat' split
+  all_goals first
+    | exact ⟨h, hnp⟩
+    | exact ⟨wf_updBody_box h id _, hnp⟩
+
+/-- **every operation preserves the invariant**, and leaves no sweep under way -/
+theorem wf_step (F : Facts cfg) {s : St} (h : WF cfg s) (hnp : NoPend s) (op : Op) :
+    WF cfg (step cfg s op).1 ∧ NoPend (step cfg s op).1 := by
   cases op with
-  | make id r i => exact wf_stepMake F h id r i
-  | static id name => exact wf_stepStatic h id name
-  | copy id src => exact wf_stepCopy F h id src
+  | make id r i =>
+    refine ⟨wf_stepMake F h id r i, ?_⟩
+    simp only [step, stepMake]
+    repeat' split
+    all_goals exact hnp
+  | static id name =>
+    refine ⟨wf_stepStatic h id name, ?_⟩
+    simp only [step, stepStatic]
+    repeat' split
+    all_goals exact hnp
+  | copy id src =>
+    refine ⟨wf_stepCopy F h id src, ?_⟩
+    simp only [step, stepCopy]
+    repeat' split
+    all_goals exact hnp
   | obs t => simp only [step]; repeat' split
-             all_goals exact h
-  | free f t => exact wf_stepFree F h f t
-  | inplace ip t => exact wf_stepInplace F h ip t
-  | iter id back => simp only [step]; split <;> exact h
-  | values id => simp only [step]; split <;> exact h
-  | view v => simp only [step]; split <;> exact h
-  | sweep victims => simp only [step, St.sweep]; exact wf_foldl_sweepOne _ h
-  | finish => exact h
+             all_goals exact ⟨h, hnp⟩
+  | free f t => exact wf_stepFree F h hnp f t
+  | inplace ip t =>
+    refine ⟨wf_stepInplace F h ip t, ?_⟩
+    simp only [step, stepInplace]
+    repeat' split
+    all_goals exact hnp
+  | iter id back => simp only [step]; split <;> exact ⟨h, hnp⟩
+  | values id => simp only [step]; split <;> exact ⟨h, hnp⟩
+  | view v => simp only [step]; split <;> exact ⟨h, hnp⟩
+  | own id target => exact wf_stepOwn h hnp id target
+  | sweep victims order => simp only [step]; exact wf_sweep F h victims order
+  | thr victims order => simp only [step]; exact wf_sweep F h victims order
+  | exit order => simp only [step]; split <;> exact ⟨h, hnp⟩
+  | finish => exact ⟨h, hnp⟩
 
-theorem wf_run (F : Facts cfg) (ops : List Op) : ∀ {s : St}, WF cfg s → WF cfg (run cfg s ops) := by
+theorem wf_run (F : Facts cfg) (ops : List Op) : ∀ {s : St}, WF cfg s → NoPend s →
+    WF cfg (run cfg s ops) ∧ NoPend (run cfg s ops) := by
   induction ops with
-  | nil => intro s h; exact h
-  | cons op r ih => intro s h; exact ih (wf_step F h op)
+  | nil => intro s h hnp; exact ⟨h, hnp⟩
+  | cons op r ih => intro s h hnp; exact ih (wf_step F h hnp op).1 (wf_step F h hnp op).2
 
 end Cello.Hdr
